@@ -20,6 +20,9 @@ def run(chk):
                  extra_invs=("DispatchOK",))
     # a panic below handlers.Timeout: its deferred WriteHeader(504) runs while the panic unwinds, then the hook
     c04.library(chk, PAN, maxn=3 if thorough else 2, extra=("N", "P", "WP", "PH"), hooks=HOOKS)
+    # a panic inside a nested dispatch (HandleContext, also on another router): handled there, by THAT router's hook
+    from . import c08
+    c08.redispatch(chk, PAN)
     chk.exhaustive = True
     c04.recorded(chk, 2000 if thorough else 300, PAN)
     r = core.run_tlc("MC_Chain", cfg_text=c04.ccfg("all", 1, 2, ["N", "P"], emit=False, invs=("DispatchOK",), hooks=("status",),
